@@ -37,6 +37,12 @@ mod ws;
 
 pub use task::RemoteTask;
 
+/// Re-exports of crate-private items for the external verification harness (feature `verif`).
+#[cfg(feature = "verif")]
+pub mod verif_hooks {
+    pub use crate::task::verif_hooks::ReconEncoder;
+}
+
 pub use net::{
     BadWarpUrl, ClientConnections, ConnectionError, ExternalConnections, Listener, ListenerError,
     Scheme, SchemeHostPort, ServerConnections,
